@@ -80,6 +80,7 @@ DECLS = [
     ('file_and_missing_roots', [(['/p/one.rs', '/p/missing'], ['.rs'])]),
     ('multi_dot_ext', [(['/p/src'], ['.tar.gz', '.rs'])]),
     ('two_resources', [(['/p/src/sub'], None), (['/p/src'], ['.gz'])]),
+    ('same_root_filtered_then_unfiltered', [(['/p/src'], ['.rs']), (['/p/src'], None)]),
 ]
 
 
@@ -253,7 +254,8 @@ def reference_listing(decl, world):
 
 # ---------------------------------------------------------------------------------------------------- C16
 EVENT_PATHS = ['/p/src/a.rs', '/p/src/a.txt', '/p/src/.zinoma/x.rs', '/p/src/a.rs~', '/p/src/.a.rs.swp', '/p/src/.b.swx', '/p/src/sub/c.rs',
-               '/p/src/' + BAD + '.rs', '/p/src/' + BAD, '/p/src/.rs', '/p/.zinoma/t.checksums', '/p/src/x.swp']
+               '/p/src/' + BAD + '.rs', '/p/src/' + BAD, '/p/src/.rs', '/p/.zinoma/t.checksums', '/p/src/x.swp',
+               '/p/src/.\u00e9t\u00e9', '/p/src/.\udcffab']      # dot-files whose last bytes are inside a multi-byte character / a byte that is not UTF-8
 
 
 def relevant_ref(path, exts):
@@ -345,6 +347,10 @@ def c16_explore(arg):
                 obs[n]['detail'] = detail
                 m = s.model()
                 obs[n]['world'] = {q: ['absent', 'file', 'dir'][min(m.eval(world.sym_kind(1, q), model_completion=True).as_long(), 2)] for q in world.paths}
+                i1 = m.eval(ev1, model_completion=True).as_long()
+                i2 = m.eval(ev2, model_completion=True).as_long()
+                obs[n]['event_paths'] = [EVENT_PATHS[i1 % len(EVENT_PATHS)]] + ([EVENT_PATHS[i2 % len(EVENT_PATHS)]] if z3.is_true(m.eval(two, model_completion=True)) else [])
+                obs[n]['event_is_err'] = z3.is_true(m.eval(is_err, model_completion=True))
             s.pop()
         for p in paths:
             if p.outcome == 'panic':
@@ -670,8 +676,8 @@ def run(prop, tier, seed, repo, jobs):
                 nat = None
                 try:
                     if ob['name'].startswith('no_panic'):
-                        bad_is_err = 'unwrap()` on an `Err`' in ob.get('detail', '')
-                        panicked, spawns, rc, tail = native_watch(exts, ['/p/src/' + BAD + '.rs'], repo, is_err=bad_is_err)
+                        bad_is_err = ob.get('event_is_err', 'unwrap()` on an `Err`' in ob.get('detail', ''))
+                        panicked, spawns, rc, tail = native_watch(exts, ob.get('event_paths') or ['/p/src/' + BAD + '.rs'], repo, is_err=bad_is_err)
                         nat = {'panicked': panicked, 'spawns': spawns, 'rc': rc, 'stderr': tail}
                         confirmed = panicked or spawns < 2
                     elif ob['name'].startswith('a_later_relevant_event'):
